@@ -146,7 +146,7 @@ Proof. intros w x Hw. split; [exact (wrap_s_range w x Hw)|exact (wrap_s_id w x H
    Part 3 (last theorem): the linear-time clause, refuted for AMF0.
    ------------------------------------------------------------------------------------------ *)
 
-From Verif Require Proofs.Amf0 Proofs.RtmpChunk Proofs.RtmpPacket Proofs.FlvTotal Proofs.FlvPack Proofs.Aac Proofs.Avc Proofs.JsonPlusTotal Proofs.JoseFixed Proofs.JoseCipher Proofs.JoseWrap Proofs.Amf0Cost.
+From Verif Require Proofs.Amf0 Proofs.RtmpChunk Proofs.RtmpPacket Proofs.FlvTotal Proofs.FlvPack Proofs.Aac Proofs.Avc Proofs.WsReadProps Proofs.JsonPlusTotal Proofs.JoseFixed Proofs.JoseCipher Proofs.JoseWrap Proofs.Amf0Cost.
 
 (* AMF0: Discovery + UnmarshalBinary of every value type, every nesting, every byte string (any fuel) *)
 Theorem c07_amf0_dec_total :
@@ -217,6 +217,20 @@ Theorem c07_avc_nalu_dec_total :
     forall (data : bytes) (s : N), Avc.nalu_unmarshal data <> Panic s.
 Proof. exact Verif.Proofs.Avc.nalu_total. Qed.
 
+(* WebSocket frame reader *)
+Theorem c07_ws_read_total :
+    forall (server : bool) (limit : Z) (extra : nat) (bs : bytes),
+    wf_bytes bs ->
+    limit < 9223372036854775808 ->
+    (extra < 999)%nat -> forall s : N, WsRead.lib_session true server limit extra bs <> Panic s.
+Proof. exact Verif.Proofs.WsReadProps.ws_read_total. Qed.
+
+(* WebSocket frame reader, fixed and pinned behaviour, from every input *)
+Theorem c07_ws_read_total_all :
+    forall (fixed server : bool) (limit : Z) (extra : nat) (inp : bytes) (s : N),
+    (extra < 999)%nat -> WsRead.lib_session fixed server limit extra inp <> Panic s.
+Proof. exact Verif.Proofs.WsReadProps.ws_read_total_all. Qed.
+
 (* JSON+ reader over every segmentation of the input: no panic and never out of fuel (it always returns) *)
 Theorem c07_jsonplus_total :
     forall (segs : list bytes) (fin : N) (dt : bool),
@@ -280,7 +294,7 @@ Proof. exact Verif.Proofs.Amf0Cost.amf0_cost_quadratic_refuted. Qed.
 
 (* Assumptions of EVERY theorem above, in one traversal: the tuple below mentions each of them, so the set
    printed is the union of their assumptions (one `Print Assumptions` per theorem costs 0.4 s each -- 20 s per
-   check run for this file -- and prints the same line 63 times). *)
+   check run for this file -- and prints the same line 65 times). *)
 Definition c07_all_theorems :=
   (c07_amf0_marker_String_total,
   (c07_amf0_Discovery_total,
@@ -334,6 +348,8 @@ Definition c07_all_theorems :=
   (c07_avc_record_dec_total,
   (c07_avc_sample_dec_total,
   (c07_avc_nalu_dec_total,
+  (c07_ws_read_total,
+  (c07_ws_read_total_all,
   (c07_jsonplus_total,
   (c07_jsonplus_strip_total,
   (c07_jose_b64_total,
@@ -344,5 +360,5 @@ Definition c07_all_theorems :=
   (c07_amf0_dec_returns,
   (c07_avc_sample_returns,
   (c07_flv_tags_return,
-  c07_amf0_cost_refuted)))))))))))))))))))))))))))))))))))))))))))))))))))))))))))))).
+  c07_amf0_cost_refuted)))))))))))))))))))))))))))))))))))))))))))))))))))))))))))))))).
 Print Assumptions c07_all_theorems.
